@@ -20,6 +20,9 @@ QUICK = [
     ("updatedisable_vs_finish", False, True, [["update", "disable"], ["finish"]]),
     ("disable_vs_disable", False, True, [["disable"], ["disable"]]),
     ("manual_ticks", False, True, [["tick", "tick", "tick"], []]),
+    ("multi_tick_vs_remove", True, False, [["tick"], ["mp_remove"]]),
+    ("multi_remove_vs_finish_ticker", True, True, [["finish"], ["mp_remove"]]),
+    ("multi_remove_println_mpprintln", True, False, [["mp_remove"], ["println"], ["mp_println"]]),
 ]
 CALLS = ["tick", "update", "finish", "println", "disable", "enable"]
 
@@ -30,8 +33,8 @@ def programs(tier):
     out = list(QUICK)
     for multi in (False, True):
         for tk in (False, True):
-            for a in CALLS + (["mp_println"] if multi else []):
-                for b in CALLS + (["mp_println"] if multi else []):
+            for a in CALLS + (["mp_println", "mp_remove"] if multi else []):
+                for b in CALLS + (["mp_println", "mp_remove"] if multi else []):
                     out.append(("p2_%s_%s_%d%d" % (a, b, multi, tk), multi, tk, [[a], [b]]))
     for a in CALLS:
         for b in CALLS:
